@@ -1,0 +1,15 @@
+//go:build verif
+
+package badger
+
+// Exports for the Backup / Load check (C24): the KVLoader's pending batch and the constant that
+// bounds it.  Add-only; compiled only with `-tags verif`.
+
+// VerifLoaderState returns len(l.entries), l.entriesSize and l.totalSize: the batch the loader
+// has accumulated and not yet handed to the write path.
+func (l *KVLoader) VerifLoaderState() (n int, entriesSize, totalSize int64) {
+	return len(l.entries), l.entriesSize, l.totalSize
+}
+
+// VerifFlushThreshold returns the constant flushThreshold of backup.go.
+func VerifFlushThreshold() int64 { return flushThreshold }
